@@ -7,6 +7,7 @@ from fractions import Fraction
 
 from common import standard_main, run_model, run_cli_many, parse_text_spectrum, is_panic, frac_to_dec
 from callsets import render_vcf, model_records, model_samples, cli_samples_arg, model_project, cli_project_arg
+from callsets import bgzf_compress as bgzf_compress_
 from gen_create import random_callset, random_map, pop_sizes, random_projection
 
 TOL = Fraction(1, 10**9)
@@ -16,7 +17,7 @@ RULE = ("call sets of 1-12 records x sample maps, each run (i) clean, non-strict
         "(strict and projection exclude each other on the command line). Compared with the model of the run: exit "
         "status, stdout (exact integers without projection, within 0.5e-6+1e-9*records with), the 'Skipped X/Y' summary, "
         "the contig:position named in the error, empty stdout on every failure. On the binary alone: total(stdout) + X "
-        "= Y = number of records. non-trivial = a run with a fault or with at least one skipped record; uncompressed BCF streams cut inside a record (1 byte or more into it) must fail with empty stdout; records whose GT value is no genotype ('0/x', '1/', 'A') in any column are corrupt; the runs repeated by path, with -q / -v and under logging / colour / locale environment variables (invocation_variants)")
+        "= Y = number of records. non-trivial = a run with a fault or with at least one skipped record; uncompressed BCF streams cut inside a record (1 byte or more into it) must fail with empty stdout; records whose GT value is no genotype ('0/x', '1/', 'A') in any column are corrupt; the runs repeated by path, with -q / -v and under logging / colour / locale environment variables (invocation_variants); records without a GT key; every target 1..7 against sites with 0-3 missing samples")
 
 
 def check(rep, tier, seed):
@@ -25,6 +26,10 @@ def check(rep, tier, seed):
     nsets = 12 if tier == "quick" else 120
     for k in range(nsets):
         cols, recs = random_callset(rng, nsamples=rng.randrange(1, 7), nrecords=rng.randrange(1, 13), p_skip=rng.choice([0.0, 0.1, 0.3]))
+        if k % 2 == 1 and recs:
+            # a record whose FORMAT has no GT key at all (DP only): nobody has a genotype there - a site like any other, skipped
+            # and reported, never silently dropped
+            recs.insert(rng.randrange(len(recs) + 1), ["NOGT"] * len(cols))
         sm = random_map(rng, cols)
         selected = [n for n, _ in sm]
         selcol = cols.index(selected[0])
@@ -35,7 +40,7 @@ def check(rep, tier, seed):
             # verbosity is no part of the outcome (stdout, exit status); the skip summary is an info line, silenced by -q
             fl = [[], [], [], ["-v"], ["-vv"]][len(jobs) % 5]
             argv = argv + fl
-            mrecs = [("!" if (raw and i in raw) else ",".join(r)) for i, r in enumerate(recs_)]
+            mrecs = [("!" if (raw and i in raw) else ",".join("." if g == "NOGT" else g for g in r)) for i, r in enumerate(recs_)]
             mc = "create %d %s %s %s %s" % (1 if strict else 0, ",".join(cols), model_samples(sm),
                                            model_project(None if strict else pr), ";".join(mrecs) if mrecs else "-")
             jobs.append((argv, render_vcf(cols, recs_, raw_lines=raw)))
@@ -43,6 +48,8 @@ def check(rep, tier, seed):
         add(recs, False, note="clean")
         add(recs, True, note="strict")
         for i in range(len(recs)):
+            if recs[i] and recs[i][0] == "NOGT":
+                continue            # a record without GT key is rendered as a whole: no single genotype of it is edited
             r2 = [list(r) for r in recs]
             # the non-diploid genotype in ANY selected column; the other selected columns keep whatever they hold
             # (called, missing, multiallelic): the error must win wherever it stands
@@ -58,10 +65,38 @@ def check(rep, tier, seed):
             r3 = [list(r) for r in recs]
             r3[i][selcol] = "./."
             add(r3, True, note="strict-violation@%d" % i)
+        if k % 4 == 0:
+            # projection targets next to the number of called chromosomes: a site ONE chromosome short of an (odd) target is not
+            # covered - skipped and reported -, a site that has exactly the target is counted whole (every target 1..2n+1)
+            c3 = ["u0", "u1", "u2"]
+            r3_ = [["0/1", "1/1", "0/0"], ["./.", "0/1", "1/1"], ["./.", "./.", "0/1"], ["./.", "./.", "./."], ["0/0", "./.", "1/1"], ["1/1", "0/1", "."]]
+            keep_cols, keep_sm = cols, sm
+            for shape_entry in range(1, 8):
+                cols, sm = c3, [(c, None) for c in c3]
+                saved_pr = pr
+                pr = ("s", [shape_entry])
+                add(r3_, False, note="target-next-to-total")
+                pr = saved_pr
+            cols, sm = keep_cols, keep_sm
         # truncation in the middle of the last line
         vcf = render_vcf(cols, recs)
         cut = vcf[:len(vcf) - 1 - rng.randrange(1, 4)]
         jobs.append((["create"] + cli_samples_arg(sm), cut)); mcases.append(None); metas.append(("truncated-last-line", len(recs), None))
+    # --strict names the contig and position of the first record that would be skipped - whatever the contig is called:
+    # undeclared in the header, symbolic (<name>), named like a number or a sex chromosome
+    sj, sw = [], []
+    for ctg in ("scaf_7", "<ctg2>", "17", "chrY", "MT", "HLA-A_01"):
+        v_ = render_vcf(["a", "b", "c"], [["0/1", "0/0", "1/1"], ["0/0", "0/1", "0/1"], ["0/1", "./.", "0/0"], ["./.", "0/0", "0/0"]], contigs=["chr1", ctg, ctg, ctg], positions=[3, 5, 7, 9])
+        for data_ in (v_, bgzf_compress_(v_)):
+            sj.append((["create", "--strict"], data_)); sw.append((ctg, 7))
+            sj.append((["create", "--strict", "-s", "a,c"], data_)); sw.append((ctg, 9))
+    for job, (ctg, pos_), (rc, so, se) in zip(sj, sw, run_cli_many(sj)):
+        rep.count("run-loop:strict-names-site", "%s:%d" % (ctg, pos_), True)
+        names = ("'%s:%d'" % (ctg, pos_), "'%s:%d'" % (ctg.strip("<>"), pos_))
+        if rc == 0 or so != b"" or not any(n_.encode() in se for n_ in names):
+            rep.fail(kind="property-oracle", cls="run-loop:strict:name", case="--strict, first skipped record at %s:%d" % (ctg, pos_), argv=["sfs"] + job[0], stdin_hex=job[1].hex()[:20000],
+                     observed={"rc": rc, "stdout": so.decode(errors="replace")[:100], "stderr": se.decode(errors="replace")[-300:]}, expected="failure naming %s" % names[0],
+                     detail="a strict run fails at the first record that would be skipped, naming its contig and position")
     # an uncompressed BCF stream that ends inside a record (from its first byte on: inside the two length fields as well): the
     # record is corrupt - the run must fail and print no spectrum, not report the records before it
     import struct as _st
